@@ -217,18 +217,30 @@ int32 psGetTime(psTime_t *t, void *userPtr)
 
 int32 psDiffMsecs(psTime_t then, psTime_t now, void *userPtr)
 {
+    int64_t msecs;
+
     if (now.psTimeInternal.tv_nsec < then.psTimeInternal.tv_nsec)
     {
         now.psTimeInternal.tv_sec--;
         /* borrow 1 second worth of nsec */
         now.psTimeInternal.tv_nsec += 1000000000L;
         }
-        return (int32) ((now.psTimeInternal.tv_sec -
-                then.psTimeInternal.tv_sec) *
-                1000) +
+        /* Saturate: a difference that does not fit 32 bits must not wrap
+           around to a small value again (after 49.7 days). */
+        msecs = ((int64_t) now.psTimeInternal.tv_sec -
+                then.psTimeInternal.tv_sec) * 1000 +
                ((now.psTimeInternal.tv_nsec -
                  then.psTimeInternal.tv_nsec) /
                 1000000);
+        if (msecs > 0x7fffffff)
+        {
+            return 0x7fffffff;
+        }
+        if (msecs < -0x7fffffff)
+        {
+            return -0x7fffffff;
+        }
+        return (int32) msecs;
     }
 
     int64_t psDiffUsecs(psTime_t then, psTime_t now)
